@@ -127,6 +127,21 @@ class Chief(Role[Person], Symbol):
 
 
 @dataclass(eq=False)
+class ChiefF(Role["Person"], Symbol):
+    """the same role, its role taker written as a forward reference"""
+    person: Person
+    head_of: Org = None
+
+    __hash__ = object.__hash__
+
+    def __eq__(self, other):
+        return self is other
+
+    def __repr__(self):
+        return f"ChiefF({self.person.name})"
+
+
+@dataclass(eq=False)
 class Boss(Symbol):
     """two single-valued fields, the sub-property declared (and assigned by the constructor) before its super-property"""
     name: str
@@ -266,6 +281,7 @@ class HasPart(PropertyDescriptor, TransitiveProperty, HasInverseProperty):
 Person.works_for = WorksFor(Person, "works_for")
 Person.member_of = MemberOf(Person, "member_of")
 Chief.head_of = HeadOf(Chief, "head_of")
+ChiefF.head_of = HeadOf(ChiefF, "head_of")
 Org.members = Member(Org, "members")
 VPerson.member_of = MemberOf(VPerson, "member_of")
 VOrg.members = Member(VOrg, "members")
@@ -284,5 +300,5 @@ PERSON_CLASSES = {"Person": Person, "Employee": Employee, "Manager": Manager, "V
                   "WorkingStudent": WorkingStudent}
 ORG_CLASSES = {"Org": Org, "Dept": Dept}
 ODD_CLASSES = {"Bag": Bag, "Crate": Crate}
-ALL_CLASSES = {**PERSON_CLASSES, **ORG_CLASSES, "SeasonalA": SeasonalA, "SeasonalB": SeasonalB, "Loose": Loose, "Chief": Chief, "VOrg": VOrg, "VPerson": VPerson, "Unit": Unit,
+ALL_CLASSES = {**PERSON_CLASSES, **ORG_CLASSES, "SeasonalA": SeasonalA, "SeasonalB": SeasonalB, "Loose": Loose, "Chief": Chief, "ChiefF": ChiefF, "VOrg": VOrg, "VPerson": VPerson, "Unit": Unit,
                "Visitor": Visitor, "Delegate": Delegate, "Chair": Chair, "Convener": Convener, "Boss": Boss}
